@@ -179,6 +179,8 @@ pub struct Known {
     pub pending: HashMap<u32, Pending>,
     pub next_serial: u32,
     pub subscribed_notifications: u32,
+    /// Introspection queries received from the broker and not yet answered.
+    pub inbound_intro_queries: Vec<u32>,
 }
 
 pub struct Resolver<'a> {
@@ -726,7 +728,12 @@ impl Resolver<'_> {
                 StopBusListener { serial, cookie }.into()
             }
             OpKind::RegisterIntrospection => {
-                let ids: HashSet<Uuid> = HashSet::from([pool_uuid(3, (op.a % 3) as u64)]);
+                let mut ids: HashSet<Uuid> = HashSet::new();
+                for i in 0..3u32 {
+                    if (op.a >> i) & 1 == 1 || i == op.b % 3 {
+                        ids.insert(pool_uuid(3, i as u64));
+                    }
+                }
                 RegisterIntrospection {
                     value: encode_for(v, &Value::UuidSet(ids)),
                 }
@@ -736,15 +743,29 @@ impl Resolver<'_> {
                 let serial = self.serial(Pending::Other);
                 QueryIntrospection {
                     serial,
-                    type_id: TypeId(pool_uuid(3, (op.a % 3) as u64)),
+                    type_id: TypeId(pool_uuid(3, (op.a % 4) as u64)),
                 }
                 .into()
             }
-            OpKind::QueryIntrospectionReply => QueryIntrospectionReply {
-                serial: op.a % 4,
-                result: QueryIntrospectionResult::Unavailable,
+            OpKind::QueryIntrospectionReply => {
+                if self.known.inbound_intro_queries.is_empty() && (self.conformant || op.c % 64 != 63) {
+                    // Nothing to answer (an unsolicited reply closes the connection; keep that rare).
+                    let serial = self.serial(Pending::Other);
+                    return Sync { serial }.into();
+                }
+                let serial = if self.known.inbound_intro_queries.is_empty() {
+                    op.a % 4
+                } else {
+                    let i = (op.a >> 2) as usize % self.known.inbound_intro_queries.len();
+                    self.known.inbound_intro_queries.remove(i)
+                };
+                let result = if op.b % 3 == 0 {
+                    QueryIntrospectionResult::Unavailable
+                } else {
+                    QueryIntrospectionResult::Ok(self.payload(op.c & !0xf))
+                };
+                QueryIntrospectionReply { serial, result }.into()
             }
-            .into(),
             OpKind::Raw => self.raw(op),
             _ => unreachable!("not a message op"),
         }
@@ -1009,6 +1030,7 @@ impl Known {
             Message::SubscribeEvent(_) | Message::SubscribeAllEvents(_) => {
                 self.subscribed_notifications += 1;
             }
+            Message::QueryIntrospection(q) => self.inbound_intro_queries.push(q.serial),
             _ => {}
         }
     }
